@@ -123,7 +123,8 @@ class MediaRequestBase(RequestHandlerBase):
             try:
                 # remove the mehd box as this stream is not supposed to
                 # have a fixed duration
-                del atom.moov.mehd
+                # (the mehd box is a child of the mvex box)
+                del atom.moov.mvex.mehd
             except AttributeError:
                 pass
         data = atom.encode()
